@@ -110,15 +110,41 @@ def _tokenizer(pkg, cname):
 # ------------------------------------------------------------------ R1 / R2
 
 def _is_len_desc_sorted(v):
-    """sorted(X, key=len, reverse=True) -> X ;  'other' for a sorted(..) in another order ;  None when not a sorted call"""
+    """sorted(X, key=len, reverse=True) in any of its spellings (key=lambda s: len(s) with reverse=True, key=lambda s: -len(s), a tuple key
+    whose first component is one of these) -> X ;  'other' for a sorted(..) understood to be in another order (no key, the length
+    ascending) ;  'unknown' for a key / reverse flag this rule does not read ;  None when not a sorted call"""
     v = simp(v)
     if v[0] == "call" and v[1] == ("global", "sorted") and len(v[2]) == 1:
         kw = dict(v[3])
-        key, rev = kw.get("key"), kw.get("reverse")
-        if key == ("global", "len") and rev == ("const", True):
-            return v[2][0]
-        if key is not None and key[0] == "unknown":
+        if set(kw) - {"key", "reverse"}:
             return "unknown"
+        key, rev = kw.get("key"), kw.get("reverse", ("const", False))
+        if rev[0] != "const" or not isinstance(rev[1], bool):
+            return "unknown"
+
+        def by_len(k):
+            """+1: the key is the length; -1: minus the length; 0: understood, neither; None: not read"""
+            if k is None:
+                return 0                    # the natural (alphabetical) order
+            if k == ("global", "len"):
+                return 1
+            if k[0] == "lambda" and len(k[1]) == 1:
+                b = k[2]
+                if b[0] == "tuple" and b[1]:
+                    b = b[1][0]             # ties broken by further components
+                LEN = ("call", ("global", "len"), (k[1][0],), ())
+                if b == LEN:
+                    return 1
+                if b in (("unop", "USub", LEN), ("binop", "Mult", ("const", -1), LEN), ("binop", "Mult", LEN, ("const", -1)), ("binop", "Sub", ("const", 0), LEN)):
+                    return -1
+                if b == k[1][0] or (b[0] == "attr" and b[1] == k[1][0]) or (b[0] == "meth" and b[1] == k[1][0] and b[2] in ("lower", "upper")):
+                    return 0                # the symbol itself / its case-folded text: alphabetical
+            return None
+        d = by_len(key)
+        if d is None:
+            return "unknown"
+        if (d == 1 and rev[1]) or (d == -1 and not rev[1]):
+            return v[2][0]
         return "other"
     return None
 
@@ -232,7 +258,10 @@ def _r1_r2(ctx, fl, pfn, pname):
                 same_len = n_[0] == "binop" and n_[1] == "Sub" and is_pos(n_[2], "end") and is_pos(n_[3], "start")
                 if n_[0] == "call" and n_[1] == ("global", "len") and n_[2] and simp(n_[2][0])[0] == "meth" and simp(n_[2][0])[2] == "group":
                     same_len = True
-                fill = (len(s_[1]) == 1 and same_len, s_[1], show(n_))
+                # understood: the span's own length (ok), a constant repeat count / a filler of several characters (wrong); a repeat
+                # count computed in another way is not read
+                if same_len or n_[0] == "const" or len(s_[1]) != 1:
+                    fill = (len(s_[1]) == 1 and same_len, s_[1], show(n_))
         if pre and suf and fill is not None:
             ok = fill[0]
             why = f"filler {fill[1]!r} * ({fill[2]})"
@@ -754,4 +783,15 @@ BENIGN += [
 ]
 MUTANTS += [
     {"name": "helper-handed-the-table-strips-the-symbols", "edits": _FILL_EDITS + [{"file": SP, "old": "    @classmethod\n    def reset(cls) -> None:\n", "new": _FILL % "[n.strip() for n in names]"}], "rules": ["R11"]},
+]
+
+# ---- wave 4: the length order in its other spellings ----
+_COMP = "        components = sorted(elements + symbols, key=len, reverse=True)\n"
+BENIGN += [
+    {"name": "symbols-sorted-by-negative-length", "file": SP, "old": _COMP, "new": "        components = sorted(elements + symbols, key=lambda sym: -len(sym))\n"},
+    {"name": "symbols-sorted-by-length-then-text-reversed", "file": SP, "old": _COMP, "new": "        components = sorted(elements + symbols, key=lambda sym: (len(sym), sym), reverse=True)\n"},
+]
+MUTANTS += [
+    {"name": "symbols-sorted-by-length-lambda-ascending", "file": SP, "old": _COMP, "new": "        components = sorted(elements + symbols, key=lambda sym: len(sym))\n", "rules": ["R1"]},
+    {"name": "symbols-sorted-by-negative-length-reversed", "file": SP, "old": _COMP, "new": "        components = sorted(elements + symbols, key=lambda sym: -len(sym), reverse=True)\n", "rules": ["R1"]},
 ]
